@@ -8,7 +8,7 @@
 (* increments `mism`; the driver turns MISMATCH lines into verdicts.       *)
 (* Traces of many worlds are concatenated ("World" events reset the state).*)
 (***************************************************************************)
-EXTENDS Obs, Laws, DiffRef, Json, IOUtils
+EXTENDS Obs, Laws, DiffRef, IngressRef, Json, IOUtils
 
 TraceFile == IF "TRACE" \in DOMAIN IOEnv THEN IOEnv.TRACE ELSE "trace.ndjson"
 Trace == ndJsonDeserialize(TraceFile)
@@ -60,7 +60,9 @@ TraceList == /\ IsEvent("List")
              /\ LET ev == Trace[l]
                     plain == ~ev.opts.exposure /\ ev.opts.focus = "" /\ ~ev.opts.stop
                 IN /\ obsL' = IF plain THEN ev.obs ELSE obsL
-                   /\ Report(IF plain THEN ListMismatches(w, ev.obs) \cup EdgeLawMismatches(ev.obs) ELSE {})
+                   /\ Report(IF plain THEN ListMismatches(w, ev.obs) \cup EdgeLawMismatches(ev.obs)
+                                            \cup (IF DistinctKeys(w) THEN IngressMismatches(w, ev.obs) ELSE {})
+                             ELSE {})
 
 TraceEval == /\ IsEvent("Eval")
              /\ UNCHANGED <<w, wid, edit, prevW, prevL, obsL>>
@@ -75,7 +77,11 @@ TraceDiff == /\ IsEvent("Diff")
                     b == IF ev.dir = "rev" THEN prevW ELSE w
                 IN Report(IF DistinctKeys(a) /\ DistinctKeys(b) THEN DiffMismatches(a, b, ev.obs) ELSE {})
 
-Next == TraceWorld \/ TraceList \/ TraceEval \/ TraceDiff
+TraceFocus == /\ IsEvent("Focus")
+              /\ UNCHANGED <<w, wid, edit, prevW, prevL, obsL>>
+              /\ Report(IF obsL.outcome = "ok" THEN FocusMismatches(w, obsL, Trace[l].W, Trace[l].obs) ELSE {})
+
+Next == TraceWorld \/ TraceList \/ TraceEval \/ TraceDiff \/ TraceFocus
 
 Spec == Init /\ [][Next]_vars
 
